@@ -1,5 +1,6 @@
 SPECIFICATION Spec
 CONSTANTS MaxRaw = 9
 AnyInput = FALSE
-INVARIANTS TypeOK NoError OutIsPrefix FinalOutput Progress Mirrors
+PROPERTY StepsAgree
+INVARIANTS RunAgrees TypeOK NoError OutIsPrefix FinalOutput Progress Mirrors
 CHECK_DEADLOCK FALSE
